@@ -28,6 +28,9 @@ func main() {
 	if d := os.Getenv("VERIF_DIR"); d != "" {
 		verifDir = d
 	}
+	if d := os.Getenv("GOSYM_REPO"); d != "" {
+		repoDir = d
+	}
 	switch os.Args[1] {
 	case "run":
 		cmdRun(os.Args[2:])
